@@ -1,23 +1,39 @@
 #!/usr/bin/env python3
-"""Run checks against seeded changes: seed_matrix.py C02-a C02-b ... [--checks C02,C07]
-For each change: git -C /repo apply, run the quick check(s), git -C /repo checkout -- .  Results go to
-seeded/matrix.json (change -> {check: caught?}) and into the change's meta.json when it has been validated."""
+"""Run the quick checks against seeded changes: seed_matrix.py [-j N] C02-a C02-b ... [--checks=C02,C07] | --all
+
+Each change is applied to its own scratch worktree of /repo's HEAD (under /tmp, removed afterwards); the checks are
+pointed at it with VERIF_REPO and write their evidence / replay files to a scratch directory (VERIF_OUT), so neither
+/repo nor the registered evidence is touched and several changes can be tried at once.  (`git -C /repo apply <patch>;
+./check Cxx; git -C /repo checkout -- .` is the same experiment on /repo itself.)  Results: seeded/matrix.json and the
+`caught_by` / `checks_run_with_patch` fields of the change's meta.json.
+"""
 import json
 import os
+import shutil
 import subprocess
 import sys
+from concurrent.futures import ThreadPoolExecutor
 
 RELATED = {"C01": ["C01", "C02"], "C02": ["C02", "C07", "C11"], "C03": ["C03"], "C04": ["C04", "C12", "C05"], "C05": ["C05", "C04"],
            "C06": ["C06"], "C07": ["C07", "C02"], "C08": ["C08"], "C09": ["C09"], "C10": ["C10"], "C11": ["C11"], "C12": ["C12"],
            "C13": ["C13"], "C14": ["C14"], "C15": ["C15"], "C16": ["C16"], "C17": ["C17"], "C18": ["C18"], "C19": ["C19"], "C20": ["C20"]}
-args = [a for a in sys.argv[1:] if not a.startswith("--")]
+args = [a for a in sys.argv[1:] if not a.startswith("-")]
 checks_override = None
-for a in sys.argv[1:]:
+jobs_n = 3
+argv = sys.argv[1:]
+for i, a in enumerate(argv):
     if a.startswith("--checks="):
         checks_override = a.split("=", 1)[1].split(",")
+    if a == "-j":
+        jobs_n = int(argv[i + 1])
+        args.remove(argv[i + 1])
+if "--all" in argv:
+    args = sorted(d for d in os.listdir("/verif/seeded") if d[:1] == "C" and os.path.exists("/verif/seeded/%s/patch.diff" % d))
 mpath = "/verif/seeded/matrix.json"
 matrix = json.load(open(mpath)) if os.path.exists(mpath) else {}
-for ch in args:
+
+
+def one(ch):
     prop, m = ch.split("-")
     patch = None
     for cand in ("/verif/seeded/%s/patch.diff" % ch, "/verif/seeded/_incoming/%s/%s/patch.diff" % (prop, m)):
@@ -25,30 +41,40 @@ for ch in args:
             patch = cand
             break
     if patch is None:
-        print(ch, "no patch")
-        continue
-    subprocess.run("git -C /repo checkout -- .", shell=True)
-    ap = subprocess.run("git -C /repo apply %s" % patch, shell=True, capture_output=True, text=True)
-    if ap.returncode != 0:
-        print(ch, "patch does not apply:", ap.stderr.strip()[:200])
-        matrix[ch] = {"applies": False}
-        continue
-    res = {}
+        return ch, None
+    wt, out = "/tmp/mx_%s" % ch, "/tmp/mx_out_%s" % ch
+    subprocess.run("git -C /repo worktree remove --force %s 2>/dev/null; rm -rf %s %s; git -C /repo worktree add --detach %s HEAD -q" % (wt, wt, out, wt), shell=True)
     try:
+        ap = subprocess.run("git -C %s apply %s" % (wt, patch), shell=True, capture_output=True, text=True)
+        if ap.returncode != 0:
+            print(ch, "patch does not apply:", ap.stderr.strip()[:200], flush=True)
+            return ch, {"applies": False}
+        res = {}
         for c in (checks_override or RELATED[prop]):
-            p = subprocess.run("cd /verif && ./check %s --tier quick" % c, shell=True, capture_output=True, text=True)
+            env = dict(os.environ, VERIF_REPO=wt, VERIF_OUT=out)
+            p = subprocess.run("cd /verif && ./check %s --tier quick" % c, shell=True, capture_output=True, text=True, env=env)
             v = [l for l in p.stdout.splitlines() if l.startswith("VIOLATION")]
             res[c] = {"rc": p.returncode, "violations": len(v), "first": v[0][:300] if v else None,
                       "machinery": next((l[:200] for l in p.stdout.splitlines() if l.startswith("MACHINERY")), None)}
             print(ch, c, "rc=%d" % p.returncode, "violations=%d" % len(v), (v[0][:160] if v else res[c]["machinery"] or ""), flush=True)
+        return ch, {"applies": True, "checks": res, "caught_by": [c for c, r in res.items() if r["rc"] == 1 and r["violations"] > 0],
+                    "base": subprocess.run("git -C /repo rev-parse --short HEAD", shell=True, capture_output=True, text=True).stdout.strip()}
     finally:
-        subprocess.run("git -C /repo checkout -- .", shell=True)
-    matrix[ch] = {"applies": True, "checks": res, "caught_by": [c for c, r in res.items() if r["rc"] == 1 and r["violations"] > 0]}
-    json.dump(matrix, open(mpath, "w"), indent=1)
-    meta = "/verif/seeded/%s/meta.json" % ch
-    if os.path.exists(meta):
-        d = json.load(open(meta))
-        d["caught_by"] = sorted(set(d.get("caught_by", [])) | set(matrix[ch]["caught_by"]))
-        d["checks_run_with_patch"] = {c: ("VIOLATION (exit 1)" if r["rc"] == 1 else "exit %d" % r["rc"]) for c, r in res.items()}
-        json.dump(d, open(meta, "w"), indent=1)
+        subprocess.run("git -C /repo worktree remove --force %s; rm -rf %s" % (wt, out), shell=True)
+
+
+with ThreadPoolExecutor(jobs_n) as ex:
+    for ch, r in ex.map(one, args):
+        if r is None:
+            print(ch, "no patch")
+            continue
+        matrix[ch] = r
+        json.dump(matrix, open(mpath, "w"), indent=1)
+        meta = "/verif/seeded/%s/meta.json" % ch
+        if os.path.exists(meta) and r.get("applies"):
+            d = json.load(open(meta))
+            d["caught_by"] = sorted(r["caught_by"])
+            d["checks_run_with_patch"] = {c: ("VIOLATION (exit 1)" if x["rc"] == 1 else "exit %d" % x["rc"]) for c, x in r["checks"].items()}
+            d["checks_run_at"] = r["base"]
+            json.dump(d, open(meta, "w"), indent=1)
 json.dump(matrix, open(mpath, "w"), indent=1)
